@@ -18,6 +18,9 @@ type alphaOpts struct {
 	AllDeletes bool
 	Reversed   bool
 	Burst      bool
+	// AppendDel: Append of the next 1..2 headers directly followed (no Sync in between, slow disk) by a
+	// DeleteRange of the tail header / the old chain / the new headers / everything
+	AppendDel bool
 }
 
 // enabledOps lists the alphabet in a state, simplest first.
@@ -67,6 +70,22 @@ func enabledOps(cfg Cfg, head, tail uint64, a alphaOpts) []Op {
 		}
 		add(tail, head+2) // beyond head+1: must be rejected
 	}
+	if a.AppendDel && head != 0 {
+		for hi := head + 1; hi <= head+2 && hi <= n; hi++ {
+			lo := head + 1
+			for _, d := range [][2]uint64{{tail, tail + 1}, {tail, lo}, {lo, hi + 1}, {tail, hi + 1}, {hi, hi + 1}} {
+				dup := false
+				for _, o := range ops {
+					if o.K == "appenddel" && o.Hi == hi && o.From == d[0] && o.To == d[1] {
+						dup = true
+					}
+				}
+				if !dup {
+					ops = append(ops, Op{K: "appenddel", Lo: lo, Hi: hi, From: d[0], To: d[1]})
+				}
+			}
+		}
+	}
 	if a.Restart {
 		ops = append(ops, Op{K: "restart"})
 	}
@@ -83,7 +102,7 @@ func histFeat(cfg Cfg, hist []Op) string {
 		kinds[o.K] = true
 	}
 	var ks []string
-	for _, k := range []string{"gapappend", "revappend", "burstrestart", "delete", "restart", "readall"} {
+	for _, k := range []string{"gapappend", "revappend", "burstrestart", "appenddel", "delete", "restart", "readall"} {
 		if kinds[k] {
 			ks = append(ks, k)
 		}
@@ -182,7 +201,7 @@ func TestC04(t *testing.T) {
 		return
 	}
 	depth := vk.Pick(run, 3, 4)
-	a := alphaOpts{MaxSlice: 3, Gapped: run.Thorough(), Reversed: true, Deletes: true, Restart: true, ReadAll: true}
+	a := alphaOpts{MaxSlice: 3, Gapped: run.Thorough(), Reversed: true, Deletes: true, Restart: true, ReadAll: true, AppendDel: true}
 	dl := vk.NewDeadline(vk.Pick(run, 8*time.Minute, 100*time.Minute))
 	run.Set("depth", depth)
 	totalStates, totalTrans := 0, 0
